@@ -4,7 +4,9 @@ func init() {
 	reg("C06", propCfg{Pkg: "./props/c06", Rule: "algebraic laws over generated pairs plus reference values where the statement defines them",
 		Assumptions: assume(
 			"a decimal numeral is ^[+-]?[0-9]+(\\.[0-9]+)?([eE][+-]?[0-9]+)?$; it denotes an int64 when it is an integer numeral in range, otherwise the float64 strconv.ParseFloat returns",
-			"no reference value (laws only) for: a bool on exactly one side, a container against a non-nil primitive, containers differing only between leaves of different types, numerals with an empty integer or fraction part (\".5\", \"5.\"), digits outside ASCII, integer numerals outside int64, float numerals that overflow or underflow",
+			"no reference value (laws only) for: a bool on exactly one side, a container against a non-nil primitive, containers differing only between leaves of different types, numerals with an empty integer or fraction part (\".5\", \"5.\"), digits outside ASCII, integer numerals outside int64 that round to the number compared, a numeral beyond float64 against an infinity, a numeral that underflows against zero",
+			"a decimal numeral whose number lies beyond the largest finite float64 (\"1e999\", \"1.8e308\", more than 308 digits) is a decimal numeral all the same: it denotes no int64 and no finite float64, and rounded it is an infinity, so it equals no finite number under either reading; a numeral that rounds to zero without denoting zero (\"1e-400\") equals no number other than zero",
+			"sites: the case a switch takes holds a value that == the subject at that moment, no case is taken only when no case value == the subject, and x in [c1..cn] is true exactly when x == ci for some i, at every evaluation of one statement, whatever that statement compared before; which of several matching cases is taken is not asserted",
 			"a string that is a spelling of a number but no decimal numeral, with or without white space around it - hexadecimal float, 0x/0b/0o integer, digits separated by _, Inf/Infinity/NaN in any case, a numeral with anything left over (\"1x\", \"1e\", \"1.0.0\", \"1,000\", \"--1\") - equals no number, whatever strconv reads out of it",
 			"live-slot: `in`, `switch` and `==` over one pair of operand expressions evaluated from the same state give one answer also when the right-hand expression overwrites the slot the left-hand one reads; which value of the slot takes part is not asserted (C07)",
 			"a decimal numeral with white space around it: unequal to every number the numeral itself is defined unequal to (true under the strict reading 'such a string is no numeral' and under the lenient one 'it denotes what the numeral denotes'); no reference value where the numeral itself equals the number",
